@@ -37,6 +37,7 @@ type PropSpec struct {
 	Standin   []string // classes of the bounded formatter stand-in owned by this property
 	Extra     func(e *Engine) []*Obligation // further obligations decided outside the path executor (ALIAS, READS)
 	Pairs     bool                          // bounded stand-in: pairs of equivalent spellings (C08)
+	Crash     bool                          // bounded stand-in: crash corpus through the real entry points (C11)
 }
 
 type KnownFinding struct {
@@ -84,7 +85,8 @@ func propSpecs() map[string]*PropSpec {
 	}
 	_ = label
 	return map[string]*PropSpec{
-		"C11": {ID: "C11", Kinds: []string{"SAFE", "TERM", "PRE", "INV", "POST", "FRAME"}, FuncMatch: all,
+		"C11": {ID: "C11", Kinds: []string{"SAFE", "TERM", "PRE", "INV", "POST", "FRAME"}, FuncMatch: all, Crash: true,
+			Bounded: []string{"BOUNDED complement (not counted among the obligations): a corpus of grammar-derived sentences and fault templates is run through the real FormatPacketDsl, ParseFile and the six generators in a subprocess; any panic, stack overflow or hang is a violation. It probes the boundary the proof assumes (the model invariants the generators rely on are assumed at Compile, see DESIGN section 7)"},
 			Own: func(o *Obligation) bool {
 				if o.Kind == "FRAME" {
 					return !o.PhaseB // frames of the model-building phase support the visitor's invariants; generator frames are C14
@@ -390,6 +392,40 @@ func report(e *Engine, spec *PropSpec, r *propResult, tier string, seed int, wal
 			standinInfo = map[string]interface{}{"corpus_inputs": standinCount, "formatted": len(standinOut["formatted"]), "syntax_errors": len(standinOut["syntax-error"]), "failing_pairs": len(names), "known": nKnown, "classes": spec.Standin,
 				"bound": "corpus enumerated by goverif/standin.go from grammar/PacketDsl.g4 (every alternative / optional element toggled, <=3 rounds of choice-point discovery), key lists of length 1..16, comments at <=4 token boundaries per sentence, 2 whitespace re-layouts per input"}
 		}
+	}
+	if spec.Crash {
+		outs := runCrashCorpus(e)
+		seen := map[string]bool{}
+		nCrash, nKnown := 0, 0
+		for _, oc := range outs {
+			if oc.Panic == "" {
+				continue
+			}
+			n := fmt.Sprintf("BOUNDED:%s:crash:%s", spec.ID, inputID(oc.Input))
+			if seen[n] {
+				continue
+			}
+			seen[n] = true
+			nCrash++
+			if k, ok := known[n]; ok {
+				nKnown++
+				knownHit = append(knownHit, n)
+				lines = append(lines, fmt.Sprintf("KNOWN-FINDING: property=%s %s %s", spec.ID, n, k.What))
+				continue
+			}
+			violations++
+			p := filepath.Join(outRoot, "replays", spec.ID, sanitize(n)+".reproduced.json")
+			writeJSON(p, map[string]interface{}{"property": spec.ID, "obligation": n, "input": oc.Input, "entry": oc.Entry, "observed": "panic: " + oc.Panic, "frames": oc.Frames})
+			lines = append(lines, fmt.Sprintf("VIOLATION property=%s replay=%s", spec.ID, p))
+		}
+		if len(outs) == 0 {
+			violations++
+			p := filepath.Join(outRoot, "replays", spec.ID, "crash-harness.json")
+			writeJSON(p, map[string]interface{}{"property": spec.ID, "obligation": "BOUNDED:" + spec.ID + ":crash:harness", "verifier_output": "the crash corpus harness produced no outcome"})
+			lines = append(lines, fmt.Sprintf("VIOLATION property=%s replay=%s no-failing-input-found", spec.ID, p))
+		}
+		standinInfo = map[string]interface{}{"corpus_inputs": crashCorpusSize, "outcomes": len(outs), "crashing_inputs": nCrash, "known": nKnown,
+			"bound": "grammar-derived sentences (every alternative / optional element toggled) with and without a prelude of two packets, plus hand-written fault templates (duplicates, dangling references, cycles also through inline objects, extreme sizes, syntax errors), each run through FormatPacketDsl, ParseFile and the six generators of the real code in a subprocess"}
 	}
 	if spec.Pairs {
 		e.runSpellPairs()
